@@ -281,7 +281,9 @@ example : let src : V3 ℝ := ⟨2, 0, 0⟩
 
 /-! ## 3. `from_arc`: the fallback is ignored off the opposite path; parallel path -/
 
-/-- `from_arc(src, dst, None)` on the parallel path: the identity -/
+/-- `from_arc(src, dst, None)`: the kernel of the parallel path returns the identity (the equality holds for every input: the
+kernel is a closed term and `h1` is logically unused; that this path is the one taken exactly when the comparison is true is
+`q_from_arc_same_consistent`, `E2E/C15g.lean`) -/
 theorem code_from_arc_same_real (src dst : V3 ℝ)
     (h1 : ulpsEqD (V3.dot src dst) (Transc.sqrt (src.magnitude2 * dst.magnitude2)) = true) :
     t_q_from_arc_same (envL (src.toList ++ dst.toList)) = .okG (Quat.one : Quat ℝ).toList
@@ -289,8 +291,9 @@ theorem code_from_arc_same_real (src dst : V3 ℝ)
   rw [Trace.C15.t_q_from_arc_same src dst h1,
     (C15.fromArc_branches src dst none).1 (arc_branch_of_path_same src dst h1)]
 
-/-- `from_arc(src, dst, Some(f))` on the parallel path: the same output (the identity) and the same comparison as
-without fallback, whatever `f` -/
+/-- `from_arc(src, dst, Some(f))`: the kernel of the parallel path has the same output (the identity) and the same recorded
+comparison as without fallback, whatever `f` (holds for every input, `h1` is logically unused; consistency:
+`q_from_arc_fb_same_consistent`, `E2E/C15g.lean`) -/
 theorem code_from_arc_fb_same_real (src dst f : V3 ℝ)
     (h1 : ulpsEqD (V3.dot src dst) (Transc.sqrt (src.magnitude2 * dst.magnitude2)) = true) :
     t_q_from_arc_fb_same (envL (src.toList ++ dst.toList ++ f.toList)) = .okG (Quat.one : Quat ℝ).toList
